@@ -72,7 +72,7 @@ NEEDS = {
     "seed_C08e": ("C08", "output without particle variables + newest pid absent from the last record of the restart file (npid taken from the last record only: pids reused after the restart)", ""),
     "seed_C10e": ("C10", "the slip of seed_C03e seen from C10: a reversed run with irregular frames differs from the mirrored forward run", "bounded detection by C10's own check (the deductive unit Forcing.__init__ is UNDECIDED on the changed iteration); C03's check refutes the constructor's postcondition deductively"),
     "seed_C14e": ("C14", "an inactive particle still in the state (dense layout after a death, or an IBM deactivating) followed by active ones at other depths in depth-dependent flow (advection called on the active subset: the forcing reads the cached K, A of other particles)",
-                  "MISSED by the first run: the unit was UNDECIDED (compressed array combined with a full array) and no bounded scenario had an inactive particle in front of active ones at other depths. Two general changes: obligations met BEFORE an unsupported construct are now decided (the unit stays UNDECIDED), and the scheme contracts state the alignment precondition of forcing.velocity (positions index-aligned with the cached K, A), which this call violates (deductive detection)"),
+                  "MISSED by the first run: the unit was UNDECIDED (compressed array combined with a full array) and no bounded scenario had an inactive particle in front of active ones at other depths. Two general changes: obligations met BEFORE an unsupported construct are now decided (the unit stays UNDECIDED), and the scheme contracts state the alignment precondition of forcing.velocity (positions index-aligned with the cached K, A), which this call violates (deductive detection); sheared outflow scenario with particles at different depths in both layouts added to the independence sweep (bounded detection)"),
     "seed_C16e": ("C16", "sample2D with a mask + outside_value + a point outside + a masked node in cell (0,0)", ""),
     "seed_C18e": ("C18", "legacy v1 file naming the forcing file and the grid file in different sections (gridforce vs files): the explicit grid file is dropped",
                   "MISSED by the first run: the v1 units placed both names in the same section. The placements are now independent (37 units instead of 19): deductive detection"),
